@@ -8,7 +8,6 @@ HERE = os.path.dirname(os.path.dirname(os.path.abspath(__file__)))
 
 NA = {
     "C01": "numerical equality of four simulators' floating-point results over all gate sequences; no structural clause is both necessary and not already decided under C14/C02 (hbar), C13 (cutoff>=1), C16 (mode order)",
-    "C05": "mutual consistency of five independent numerical probability algorithms over complex inputs; no necessary structural clause visible in the source",
     "C10": "correctness of hand-written gradient formulas is numerical; the only structural facts (arity/name tables) are enforced by TF/JAX at first use in the existing tests",
     "C17": "numerical agreement of two fermionic representations; parity/number conservation are properties of computed matrices",
 }
@@ -29,6 +28,11 @@ CHECKS = {
         text="Decides one necessary clause: the integer types carrying binomial weights in the permanent kernels are wide enough for every multiplicity pattern in the stated range (no signed overflow = no UB and no wrong value there). Equality with the combinatorial definitions is numerical and not decided.",
         note="Trusted: the C++ declaration extractor (clang AST when available, a token-level declaration parser otherwise), LP64 type widths.",
         ref="DESIGN 3/C04, 2/E8b"),
+    "C05": dict(
+        cat="other", technique="path enumeration with condition splitting and inlined state predicates (feature-honouring rule) + affine typing of mode counts and cutoffs under post-selection with call-site context + index-notation normal form of the coefficient-extraction kernels",
+        text="Decides three structural necessary clauses of the agreement of the passive state's probability interfaces: (a) every interface (single-outcome probability, probability table, marginals, state vector, and the sampling step) that hands the interferometer to an algorithm passes it the data of each optional feature of the state (particle overlap, post-selection) or has established on that path that the feature is absent, or raises; (b) mode counts and cutoffs are affine in (total modes T, post-selected modes P) and (cutoff C, post-selected photons N) and no expression reached from an interface corrects a count for post-selection twice or in the wrong direction; (c) in the coefficient-extraction formula the loss kernel and the per-mode detection kernels add up to (Gram matrix) o (identity on the input modes) as an identity in index notation, i.e. the probabilities sum to the input norm. Numerical agreement of the five algorithms with each other and with the unitary dilation is NOT decided.",
+        note="Trusted: python ast; the path walker's treatment of conditions (atoms `is None`, `== {}`, opaque otherwise; boolean properties of the state inlined); the seeds len(interferometer) = T, len(post-selection accessors) = P, config.cutoff = C - N iff _set_postselection reduces it. Clause-level claim only.",
+        ref="DESIGN 3/C05"),
     "C06": dict(
         cat="other", technique="twin agreement of scalar and vectorised index/dimension functions by normalised syntax trees + induction on the cutoff with binomial identities decided by sympy + structural relation between the full and the subspace index",
         text="Decides three structural necessary clauses: (a) each vectorised index / dimension function is its scalar twin applied elementwise; (b) the basis enumeration fills contiguous slices whose lengths sum to the allocated number of rows for all d >= 1 and cutoff >= 0 (induction; both steps are binomial identities decided by sympy); (c) the full index is the sector offset (the dimension formula at cutoff = total particle number) plus the index within the sector, for the bosonic and the fermionic functions. That the ranking formula is the inverse of the enumeration order for every occupation vector is arithmetic over runtime values and is NOT decided.",
@@ -115,7 +119,7 @@ ADDED = {
 }
 
 # properties whose check is built AND clean on the current tree (exit 0); others stay under not_applicable until then
-READY = ["C02", "C03", "C04", "C06", "C07", "C08", "C09", "C11", "C12", "C13", "C14", "C15", "C16", "C18", "C19", "C20"]
+READY = ["C02", "C03", "C04", "C05", "C06", "C07", "C08", "C09", "C11", "C12", "C13", "C14", "C15", "C16", "C18", "C19", "C20"]
 
 PENDING_REASON = "static check for this property is not built yet in this tree (planned, see DESIGN.md section 3)"
 
